@@ -111,9 +111,18 @@ Proof. unfold spec_sel, sel_step. rewrite spec_selst_snoc. reflexivity. Qed.
 Lemma sel_target_lt3 op v : (sel_target op v < 3)%nat.
 Proof. unfold sel_target. repeat match goal with |- context [if ?b then _ else _] => destruct b end; lia. Qed.
 
-Lemma publish_some s out j : publish s out = Some j -> j = s /\ out <> Some j.
+(* identities (node, path) are equal exactly when the target indices are: two fields of one
+   producer differ in the path, two source nodes differ in the node *)
+Lemma same_target_eqb op a b : same_target op a b = Nat.eqb a b.
 Proof.
-  unfold publish. destruct out as [cur|].
+  unfold same_target, tid_eqb, tid_of. destruct (same_producer op); simpl.
+  - reflexivity.
+  - rewrite andb_true_r. reflexivity.
+Qed.
+
+Lemma publish_some op s out j : publish op s out = Some j -> j = s /\ out <> Some j.
+Proof.
+  unfold publish. destruct out as [cur|]; rewrite ?same_target_eqb.
   - destruct (Nat.eqb cur s) eqn:E; [discriminate|]. apply Nat.eqb_neq in E. intros [= <-]. split; [reflexivity|congruence].
   - intros [= <-]. split; [reflexivity|discriminate].
 Qed.
@@ -131,7 +140,7 @@ Proof. unfold sel_eval. destruct (chained op); reflexivity. Qed.
 
 (* whatever is published went through the same-reference de-duplication *)
 Lemma sel_eval_pub op ss a b j :
-  snd (sel_eval op ss a b) = Some j -> exists s, publish s (s_out ss) = Some j.
+  snd (sel_eval op ss a b) = Some j -> exists s, publish op s (s_out ss) = Some j.
 Proof.
   unfold sel_eval, selector. destruct (chained op); simpl; intros H; sel_cases; try discriminate; eauto.
 Qed.
@@ -144,7 +153,7 @@ Proof.
   intros [Hi Ho]. unfold sel_bounded, sel_eval, selector.
   destruct (chained op); simpl; split; intros j H; sel_cases; try discriminate;
     repeat match goal with
-           | H : publish _ _ = Some _ |- _ => apply publish_some in H; destruct H as [-> _]
+           | H : publish _ _ _ = Some _ |- _ => apply publish_some in H; destruct H as [-> _]
            | H : Some _ = Some _ |- _ => injection H as <-
            end; subst; auto using sel_target_lt3; try lia.
 Qed.
@@ -218,18 +227,18 @@ Proof.
 Qed.
 
 (* rebind to a different target always installs it *)
-Lemma rebind_tgt sh t ts s l : lk_tgt (fst (rebind sh t ts s l)) = Some s \/ (lk_tgt l = Some s /\ fst (rebind sh t ts s l) = l).
+Lemma rebind_tgt sh op t ts s l : lk_tgt (fst (rebind sh op t ts s l)) = Some s \/ (lk_tgt l = Some s /\ fst (rebind sh op t ts s l) = l).
 Proof.
-  unfold rebind. destruct (lk_tgt l) as [cur|] eqn:E.
+  unfold rebind. destruct (lk_tgt l) as [cur|] eqn:E; rewrite ?same_target_eqb.
   - destruct (Nat.eqb cur s) eqn:E2.
     + right. apply Nat.eqb_eq in E2. subst. simpl. auto.
     + left. repeat match goal with |- context [if ?b then _ else _] => destruct b end; reflexivity.
   - left. repeat match goal with |- context [if ?b then _ else _] => destruct b end; reflexivity.
 Qed.
 
-Lemma rebind_times sh t ts s l T :
+Lemma rebind_times sh op t ts s l T :
   lk_lmt l <= T -> lk_trans l <= T -> 0 <= T -> T <= t ->
-  lk_lmt (fst (rebind sh t ts s l)) <= t /\ lk_trans (fst (rebind sh t ts s l)) <= t.
+  lk_lmt (fst (rebind sh op t ts s l)) <= t /\ lk_trans (fst (rebind sh op t ts s l)) <= t.
 Proof.
   intros H1 H2 H3 H4. unfold rebind, MIN_DT.
   repeat match goal with |- context [if ?b then _ else _] => destruct b end; simpl; lia.
@@ -254,7 +263,7 @@ Proof.
   assert (Hpub : pub = pub_of op (spec_selst op pre) c).
   { unfold pub_of. rewrite <- Hro, Ese. reflexivity. }
   destruct pub as [s|].
-  - destruct (rebind sh (c_t c) ts s l1) as [l2 rn] eqn:Er. simpl.
+  - destruct (rebind sh op (c_t c) ts s l1) as [l2 rn] eqn:Er. simpl.
     symmetry in Hpub. apply pub_some in Hpub. destruct Hpub as [Es Hne].
     constructor; simpl.
     + unfold ts. rewrite tick_all_length. exact Hlen.
@@ -262,13 +271,13 @@ Proof.
       rewrite Htg by exact Hi. reflexivity.
     + exact Hss.
     + rewrite spec_sel_snoc, Es.
-      pose proof (rebind_tgt sh (c_t c) ts s l1) as R. rewrite Er in R. simpl in R.
+      pose proof (rebind_tgt sh op (c_t c) ts s l1) as R. rewrite Er in R. simpl in R.
       destruct R as [R|[R _]]; [exact R|]. rewrite Hl1t, Hlk in R. contradiction.
     + rewrite last_t_snoc.
-      pose proof (rebind_times sh (c_t c) ts s l1 (c_t c) Hl1m ltac:(lia) ltac:(lia) ltac:(lia)) as R.
+      pose proof (rebind_times sh op (c_t c) ts s l1 (c_t c) Hl1m ltac:(lia) ltac:(lia) ltac:(lia)) as R.
       rewrite Er in R. simpl in R. lia.
     + rewrite last_t_snoc.
-      pose proof (rebind_times sh (c_t c) ts s l1 (c_t c) Hl1m ltac:(lia) ltac:(lia) ltac:(lia)) as R.
+      pose proof (rebind_times sh op (c_t c) ts s l1 (c_t c) Hl1m ltac:(lia) ltac:(lia) ltac:(lia)) as R.
       rewrite Er in R. simpl in R. lia.
     + intros i. apply spec_tgt_lmt_le. exact Hwf.
   - simpl. symmetry in Hpub. apply pub_none in Hpub.
@@ -326,7 +335,7 @@ Lemma last_out_cases sh op pre c :
     (bound_ticked old c = true -> lk_lmt l1 = t) /\
     (bound_ticked old c = false -> lk_lmt l1 <= last_t pre) /\
     ((cur = old /\ l2 = l1 /\ rn = false /\ o_ref o = false) \/
-     (exists j, cur = Some j /\ old <> Some j /\ rebind sh t ts j l1 = (l2, rn) /\ o_ref o = true)) /\
+     (exists j, cur = Some j /\ old <> Some j /\ rebind sh op t ts j l1 = (l2, rn) /\ o_ref o = true)) /\
     o_cons o = consumers (bound_ticked old c || rn || (c_nest c && (retargets op (spec_selst op pre) c || c_poke c)))
                          (c_poke c) (c_force c) (read sh t ts l2) /\
     o_direct o = directs c ts /\ o_t o = t.
@@ -351,7 +360,7 @@ Proof.
   destruct (sel_eval op (spec_selst op pre) (c_sel c) (c_sel2 c)) as [ss' pub] eqn:Ese.
   assert (Ep : pub_of op (spec_selst op pre) c = pub) by (unfold pub_of; rewrite Ese; reflexivity).
   destruct pub as [s|].
-  - destruct (rebind sh (c_t c) ts s l1) as [l2 rn] eqn:Er. simpl.
+  - destruct (rebind sh op (c_t c) ts s l1) as [l2 rn] eqn:Er. simpl.
     pose proof Ep as Ep'. apply pub_some in Ep. destruct Ep as [Es Hne].
     exists ts, l1, l2, rn. repeat split; auto.
     + right. exists s. repeat split; auto. unfold cur. rewrite spec_sel_snoc. exact Es.
@@ -411,9 +420,9 @@ Lemma read_value sh t ts l :
 Proof. unfold read. destruct (lk_tgt l); simpl; split; reflexivity. Qed.
 
 (* ---- facts about [rebind] to a DIFFERENT target ---- *)
-Lemma rebind_other_valid sh t ts s l :
+Lemma rebind_other_valid sh op t ts s l :
   lk_tgt l <> Some s -> tvalid (get_t ts s) = true ->
-  rebind sh t ts s l =
+  rebind sh op t ts s l =
   (mkL (Some s) t (if is_keyed sh then t else MIN_DT)
        (if is_keyed sh then match lk_tgt l with Some o => contents_before t (get_t ts o) | None => [] end else [])
        (if is_keyed sh then match lk_tgt l with
@@ -421,15 +430,15 @@ Lemma rebind_other_valid sh t ts s l :
                             | None => [] end else []), true).
 Proof.
   intros Hne Hv. unfold rebind.
-  assert (E : match lk_tgt l with Some cur => Nat.eqb cur s | None => false end = false).
-  { destruct (lk_tgt l) as [cur|]; [|reflexivity]. apply Nat.eqb_neq. congruence. }
+  assert (E : match lk_tgt l with Some cur => same_target op cur s | None => false end = false).
+  { destruct (lk_tgt l) as [cur|]; [|reflexivity]. rewrite same_target_eqb. apply Nat.eqb_neq. congruence. }
   rewrite E, Hv. simpl. destruct (is_keyed sh); reflexivity.
 Qed.
 
-Lemma rebind_other_tgt sh t ts s l :
-  lk_tgt l <> Some s -> lk_tgt (fst (rebind sh t ts s l)) = Some s.
+Lemma rebind_other_tgt sh op t ts s l :
+  lk_tgt l <> Some s -> lk_tgt (fst (rebind sh op t ts s l)) = Some s.
 Proof.
-  intros Hne. destruct (rebind_tgt sh t ts s l) as [H|[H _]]; [exact H|contradiction].
+  intros Hne. destruct (rebind_tgt sh op t ts s l) as [H|[H _]]; [exact H|contradiction].
 Qed.
 
 (* contents of the old target as the consumers last saw them *)
@@ -511,7 +520,7 @@ Proof.
   repeat split; auto.
   destruct Hc as [(Hcur & -> & _ & _)|(j & Hcur & Hne & Hr & _)].
   - rewrite Hl1. symmetry. exact Hcur.
-  - rewrite Hcur. replace l2 with (fst (rebind sh (c_t c) ts j l1)) by (rewrite Hr; reflexivity).
+  - rewrite Hcur. replace l2 with (fst (rebind sh op (c_t c) ts j l1)) by (rewrite Hr; reflexivity).
     apply rebind_other_tgt. rewrite Hl1. exact Hne.
 Qed.
 
@@ -815,7 +824,7 @@ Lemma plain_same_selection op pre c v :
   spec_sel op (pre ++ [c]) = spec_sel op pre.
 Proof.
   intros Hch Hsel Hold. rewrite spec_sel_snoc. unfold sel_step, selst_step, sel_eval, selector.
-  unfold spec_sel in *. rewrite Hch, Hsel, Hold. simpl. rewrite Nat.eqb_refl. simpl. try rewrite Hold. reflexivity.
+  unfold spec_sel in *. rewrite Hch, Hsel, Hold. simpl. unfold publish. rewrite same_target_eqb, Nat.eqb_refl. simpl. try rewrite Hold. reflexivity.
 Qed.
 
 (* C13 (5): republishing an unchanged reference causes no tick: a selector tick that
@@ -843,7 +852,7 @@ Lemma plain_designation op pre c v :
   chained op = false -> c_sel c = Some v -> spec_sel op (pre ++ [c]) = Some (sel_target op v).
 Proof.
   intros Hch Hsel. rewrite spec_sel_snoc. unfold sel_step, selst_step, sel_eval, selector, publish.
-  rewrite Hch, Hsel. simpl. destruct (s_out (spec_selst op pre)) as [cur|]; [|reflexivity].
+  rewrite Hch, Hsel. simpl. destruct (s_out (spec_selst op pre)) as [cur|]; [|reflexivity]. rewrite same_target_eqb.
   destruct (Nat.eqb cur (sel_target op v)) eqn:E; [|reflexivity]. apply Nat.eqb_eq in E. subst. reflexivity.
 Qed.
 
@@ -861,11 +870,11 @@ Proof.
   intros Hch H2 Hc2 Hpk Hsel Hin.
   rewrite spec_sel_snoc. unfold sel_step, selst_step, sel_eval, selector.
   rewrite Hch, H2, Hsel, Hc2, Hpk. simpl.
-  assert (Hp : publish (sel_target 0 v) (s_in (spec_selst op pre)) = Some (sel_target 0 v)).
-  { unfold publish. destruct (s_in (spec_selst op pre)) as [cur|]; [|reflexivity].
+  assert (Hp : publish op (sel_target 0 v) (s_in (spec_selst op pre)) = Some (sel_target 0 v)).
+  { unfold publish. destruct (s_in (spec_selst op pre)) as [cur|]; [|reflexivity]. rewrite same_target_eqb.
     destruct (Nat.eqb cur (sel_target 0 v)) eqn:E; [|reflexivity]. apply Nat.eqb_eq in E. subst. contradiction. }
   rewrite Hp. simpl. unfold publish.
-  destruct (s_out (spec_selst op pre)) as [cur|]; [|reflexivity].
+  destruct (s_out (spec_selst op pre)) as [cur|]; [|reflexivity]. rewrite same_target_eqb.
   destruct (Nat.eqb cur (sel_target 0 v)) eqn:E; [|reflexivity]. apply Nat.eqb_eq in E. subst. reflexivity.
 Qed.
 
@@ -878,7 +887,7 @@ Proof.
   intros Hch H1 H2 Hpk Hin.
   rewrite spec_sel_snoc. unfold sel_step, selst_step, sel_eval.
   rewrite Hch, H1, H2, Hpk, Hin. simpl. unfold publish.
-  destruct (s_out (spec_selst op pre)) as [cur|]; [|reflexivity].
+  destruct (s_out (spec_selst op pre)) as [cur|]; [|reflexivity]. rewrite same_target_eqb.
   destruct (Nat.eqb cur j) eqn:E; [|reflexivity]. apply Nat.eqb_eq in E. subst. reflexivity.
 Qed.
 
@@ -889,7 +898,7 @@ Proof.
   intros Hch H2 Hpk.
   rewrite spec_sel_snoc. unfold sel_step, selst_step, sel_eval.
   rewrite Hch, H2, Hpk. simpl. unfold publish.
-  destruct (s_out (spec_selst op pre)) as [cur|]; [|reflexivity].
+  destruct (s_out (spec_selst op pre)) as [cur|]; [|reflexivity]. rewrite same_target_eqb.
   destruct (Nat.eqb cur 2) eqn:E; [|reflexivity]. apply Nat.eqb_eq in E. subst. reflexivity.
 Qed.
 
@@ -967,3 +976,52 @@ Qed.
 Lemma run_ref_is_run w :
   run_ref w = flat_map enc_cout (snd (run (fst (fst (decode w))) (snd (fst (decode w))) s0 (snd (decode w)))).
 Proof. unfold run_ref. destruct (decode w) as [[sh op] cs]. reflexivity. Qed.
+
+(* ------------------------------------------------------------------ targets that are sub-outputs of ONE node *)
+(* two different fields of the one producer: same owning node, different identity *)
+Lemma sibling_identity op i j :
+  same_producer op = true -> i <> j ->
+  t_node (tid_of op i) = t_node (tid_of op j) /\ tid_of op i <> tid_of op j /\ same_target op i j = false.
+Proof.
+  intros Hp Hne. unfold tid_of. rewrite Hp. simpl. split; [reflexivity|]. split.
+  - intros [= H]. contradiction.
+  - rewrite same_target_eqb. apply Nat.eqb_neq. exact Hne.
+Qed.
+
+(* a retarget between two siblings IS a retarget: although the owning node is the same, the
+   consumers are evaluated in that cycle and see the new sibling's current value as modified *)
+Lemma sibling_retarget_l sh op pre c i j :
+  wf (pre ++ [c]) -> same_producer op = true ->
+  spec_sel op pre = Some i -> spec_sel op (pre ++ [c]) = Some j -> i <> j ->
+  tvalid (spec_tgt sh j (pre ++ [c])) = true ->
+  t_node (tid_of op i) = t_node (tid_of op j) /\
+  exists r, In (0%nat, r) (o_cons (last_out sh op pre c)) /\ In (1%nat, r) (o_cons (last_out sh op pre c)) /\
+            In (3%nat, r) (o_cons (last_out sh op pre c)) /\
+            o_ref (last_out sh op pre c) = true /\
+            r_valid r = true /\ r_mod r = true /\ r_lmt r = c_t c /\
+            r_vals r = tval (spec_tgt sh j (pre ++ [c])) /\
+            (sh = ShTS -> r_upd r = tval (spec_tgt sh j (pre ++ [c])) /\ r_rem r = []).
+Proof.
+  intros Hwf Hp Hold Hcur Hne Hv.
+  split; [apply (sibling_identity op i j Hp Hne)|].
+  apply retarget_ticks_same_cycle_l; auto. rewrite Hold. intros [= H]. contradiction.
+Qed.
+
+(* ticks of the de-selected SIBLING (same node as the designated target) never reach the consumers *)
+Lemma sibling_tick_never_reaches_l sh op pre c i j cid r :
+  wf (pre ++ [c]) -> same_producer op = true ->
+  spec_sel op pre = Some j -> spec_sel op (pre ++ [c]) = Some j ->
+  i <> j -> ticks c i = true -> ticks c j = false ->
+  In (cid, r) (o_cons (last_out sh op pre c)) ->
+  t_node (tid_of op i) = t_node (tid_of op j) /\
+  (c_force c = true \/ (c_poke c = true /\ (cid = 1%nat \/ cid = 2%nat \/ c_nest c = true))) /\
+  r_mod r = false /\ r_upd r = [] /\ r_rem r = [] /\
+  r_valid r = tvalid (spec_tgt sh j pre) /\
+  r_vals r = (if tvalid (spec_tgt sh j pre) then tval (spec_tgt sh j pre) else []).
+Proof.
+  intros Hwf Hp Hold Hcur Hne Hti Htj Hin.
+  split; [apply (sibling_identity op i j Hp Hne)|].
+  assert (Hsame : spec_sel op (pre ++ [c]) = spec_sel op pre) by congruence.
+  pose proof (unselected_never_reaches_l sh op pre c cid r Hwf Hsame) as U.
+  rewrite Hold in U. apply U; [|exact Hin]. intros k [= <-]. exact Htj.
+Qed.
